@@ -715,6 +715,70 @@ def run(prog, rep, tier):
     if len(tries_) < 1:
         rep.violation(R1411, wb_.path + "|count-arithmetic|no-range-check", "string_wdhms_to_duration: no range-checked Duration constructor (try_*) receives the counts")
 
+    # ------------------------------------------------------------ R14.12 a value that was passed is resolved or rejected, never ignored
+    # process_dt_exit returns None only for "option not given".  Any value that *was* given - the empty
+    # string of `-a "$UNSET"` included - either resolves to an instant or ends the run with an error.
+    # Path-sensitive: every `return None` is reached only with the argument known to be None.
+    R1412 = rep.rule("R14.12", "process_dt_exit returns None only when the option was not given")
+    eb_ = prog.body("s4::process_dt_exit")
+
+    def _arg1_test(bb):
+        """switch at bb on is_none/is_some/discriminant of *arg1 -> {succ: 'none'|'some'}"""
+        t = eb_.term(bb)
+        if t[0] != "switch":
+            return None
+        l_ = op_local(t[1])
+        if l_ is None:
+            return None
+        ds_ = eb_.defs.get(l_, [])
+        if len(ds_) != 1:
+            return None
+        _b, idx_, rv_ = ds_[0]
+        arms = [(int(v_), tb_) for v_, tb_ in t[2]]
+        if idx_ == "call":
+            nm_ = rv_.d.split("::")[-1]
+            if nm_ in ("is_none", "is_some") and rv_.args and all(x[0] == "arg" and x[1] == 1 for x in eb_.origins(rv_.args[0])):
+                res = {}
+                for v_, tb_ in arms:
+                    truth = bool(v_)
+                    res[tb_] = ("none" if truth else "some") if nm_ == "is_none" else ("some" if truth else "none")
+                other = not any(bool(v_) for v_, _t in arms)
+                res.setdefault(t[3], ("none" if other else "some") if nm_ == "is_none" else ("some" if other else "none"))
+                return res
+            return None
+        if rv_[0] == "discr" and rv_[1][0] == 1:
+            res = {}
+            for v_, tb_ in arms:
+                res[tb_] = "none" if v_ == 0 else "some"
+            if len(arms) == 1:
+                res.setdefault(t[3], "some" if arms[0][0] == 0 else "none")
+            return res
+        return None
+    tests_ = {bb: _arg1_test(bb) for bb in eb_.live}
+    if not any(tests_.values()):
+        raise CheckerError("process_dt_exit: no test of the option argument found")
+
+    def _edge(bb, s_, st):
+        t_ = tests_.get(bb)
+        if t_ and s_ in t_:
+            if st != "?" and st != t_[s_]:
+                return None
+            return t_[s_]
+        return st
+    sts_ = flow.disjunctive(eb_, "?", lambda bb, st: st, _edge)
+    nones = []
+    for bb in sorted(eb_.live):
+        for st in eb_.stmts(bb):
+            if st[0] == "=" and st[1] == [0] and st[2][0] == "agg" and isinstance(st[2][1], dict) and st[2][1].get("variant") == "None":
+                nones.append((bb, sorted(sts_.get(bb, ())), st[3]))
+    rep.examined(R1412, eb_.path + "|none-returns", sample={"none_returns": [(bb, k_) for bb, k_, _l in nones]})
+    if not nones:
+        raise CheckerError("process_dt_exit: no `return None` found")
+    for bb, k_, ln_ in nones:
+        if k_ != ["none"]:
+            rep.violation(R1412, eb_.path + "|none-returns|value-ignored", "process_dt_exit (line %d) returns None - 'option not given' - on a path where a value was given; such a value (e.g. the empty string of `-a \"$UNSET\"`) is silently "
+                          "treated as no filter and everything is printed with exit status 0 instead of the run being rejected" % ln_)
+
     return rep.finish(
         "Static necessary-condition check of the CLI datetime-filter path: the relative-offset grammar is anchored (regular-language analysis of "
         "the const-evaluated pattern), a bare date is completed to 00:00:00 in value and pattern together, zone-less values are parsed in the "
